@@ -37,6 +37,27 @@ CHECKS = {
   note="Exhaustive only over the stated grid; read-back not demanded for string items or lists with an EmptyItem. Trusted: ref/e5, refcmp."),
 }
 
+CHECKS.update({
+ "C09": dict(engine="E2-bubble + E3-sched", cat="model_checking", tech=E2 + "; " + E3,
+  text="E2: full product (thorough; covering subset in quick) of roles x sends awaiting a reply {0,1,2} x a send blocked mid-write x queued fire-and-forget sends {0,1,3} x generation-ending event {peer close, reset, write timeout, Close+Open, linktest failure, T8 inside a frame, Separate.req} x refused re-dials x late reply for an old transaction x new sends, on a real hsmsss connection; every payload carries a token naming the generation that accepted it; oracle: generation 2's socket never carries a generation-1 token, every generation-1 waiter returns connection-closed / its own timeout promptly and never a reply, late replies never complete generation-2 sends. E3: every schedule with <= B departures of {sender pinned to generation 1, peer drop, reconnecting+selecting peer}.",
+  note="HSMS-SS only (SECS-I generations are not covered). Bounded by the stated product and by the departure bound; exact timer ties outside E3's scenarios are not explored. Built on the instrumented tree so that a writer stalled mid-write (holding the write lock) does not wedge the bubble."),
+ "C10": dict(engine="E2-bubble + E3-sched", cat="model_checking", tech=E2 + "; " + E3,
+  text="E2 tree search: every history of length <= D (quick 3, thorough 4) over {Open(background), Open(wait), Close, SendDataMessage, UpdateConfigOptions, dial answer accept/refuse/black-hole, peer connect/select/reject/close/stall, advance 100ms/3s}, each API call on its own goroutine, active and passive; after every step: no panic, each call within its documented virtual-time bound, Open-on-open = ErrAlreadyOpen without side effects; final phase per history: Close within the close timeout, idempotent re-Close, no dial/listen for 12 s, every socket and listener closed, no library goroutine, re-Open + select + round trip + Close works. E3: every schedule with <= B departures of {Close, Close, peer drop}, {Open, Close, Send}, {peer connect, Close}: no deadlock, documented return values, same leak checks.",
+  note="HSMS-SS only. Black-holed dials are bounded by the configured connect timeout (an unbounded OS dial is outside the model). State() after Close is C05's clause. Depth / departure bounds as stated."),
+ "C11": dict(engine="E2-bubble + E1-enum", cat="model_checking", tech=E2 + " (fault enumeration); backoff step: " + E1,
+  text="Exhaustive fault enumeration on the real hsmsss connection in virtual time: a canonical session (TCP up, select, data both ways, linktest) is cut after every byte of both stream directions by {peer close, reset, stall, mute}, on the first and on the re-established link, both roles, 3 backoff configurations, 2 timer sets and 0/1/2/5 refused dials or failed listens; special scenarios: select rejection, T7, cold start, double drop, Close mid-backoff. Oracle: reference predicts exactly when the link is given up and by which timer, every dial time per the documented backoff, Reconnecting/Reconnects, a working Selected session on the new link/listener, silence for 10*T5 after Close. The pure backoff step is checked over the full (initial, multiplier, T5, 0..12 failures) grid.",
+  note="One canonical 64+64-byte session per role; HSMS-SS only; failed dials fail instantly; timers never tied (E3's job). Trusted: synctest, sim, ref/backoff."),
+ "C12": dict(engine="E1-enum + race pass", cat="exploration", tech=E1 + "; supporting free-running -race pass for the memory-model clause",
+  text="Exhaustive enumeration, one case per (subject, mutation target): every concrete item type x element counts x every slice-taking constructor shape; secs2.Decode, DecodeHSMSMessage, DecodeHSMSPayload; constructed, derived and re-stamped data messages; control messages. Every slice that went in and every slice/array that came out (incl. spare capacity behind append results) is scribbled over; oracle: byte-identity of a deep transcript of every public accessor/serialiser before and after. Lazy decode/encode happens once whichever of six sharers calls first. Race pass: 54 subjects x 8 goroutines performing the full transcript as the concurrent first observation under the race detector.",
+  note="DecodeOwned* excluded (ownership transfer by contract). The 'without data races' clause has race-detector evidence over sampled schedules only (a cooperative scheduler cannot see memory-model races); the logical at-most-once clause is enumerated sequentially. Exhaustive only over the stated grid."),
+ "C16": dict(engine="E1-enum", cat="exploration", tech=E1,
+  text="Exhaustive enumeration on the 38 real constructors/shortcuts (incl. invalid byte sizes) of ALL argument lists of length 0,1,2 (thorough: 3 over a sub-alphabet) over a 416-symbol alphabet (every width-boundary value in every Go integer type, float specials, 57 numeric/non-numeric strings, unsupported kinds, named types, slices), compared with ref/clamp (documented outcome: exact, nearest bound, deferred error) and the universal never-wrapped / count / order invariants; 5041 errored items (direct, nested to depth 3, shared, oversize) are Equal to nothing and refused by every message constructor and every send entry point of the test endpoint.",
+  note="Exhaustive only over the stated alphabet and list lengths. Where the docs are silent either a deferred error or exactly the listed value is accepted. A typed-nil list child panicking on use is test-pinned library behaviour (counted, not flagged). The live-connection half of 'never reaches the wire' relies on the constructors' refusal (no message object exists to send)."),
+ "C19": dict(engine="E2-bubble + E1-enum", cat="model_checking", tech=E2 + "; failure-accounting functions: " + E1,
+  text="Explicit-state tree search over every peer script of length <= threshold+2 (thorough +3) over 8 per-round peer/application actions x threshold {1,2,3} x suppression on/off x passive/active, each replayed on a fresh real hsmsss connection and compared with a reference timeline: exact virtual time of every Linktest.req and of the disconnect, linktest counters, probe frame format, 'no probe within one interval of traffic or while a reply is outstanding'. The two pure decision functions are compared on all 3750 rows of their abstract domain; every history of <= 6 (thorough 8) probe rounds x threshold 1..4 x suppression is folded through a faithful copy of runLinktest's failure branch.",
+  note="Bounded script depth and thresholds; no exact frame/timer ties (function level only). Trusted: ref/linktest (from doc comments), synctest, sim."),
+})
+
 PENDING = {}
 
 
